@@ -120,6 +120,15 @@ class C18:
             n = rng.choice([3, 3, 4, 4, 5, 6, 7]) if rng.random() < 0.5 else rng.randint(3, smax)
             pts = point_set(rng, n, fam)
             cases.append({'kind': 'graham', 'family': fam, 'points': pts})
+        # near-collinear doubles: the double-precision sign of _ccw differs from the exact sign, so the returned chain is
+        # not the exact hull of the given doubles (reported finding, key C18:inexact-orientation).  Generated only once
+        # that finding is registered in known_findings.json (then reported as KNOWN-FINDING, never silently skipped).
+        if any(k.get('property') == 'C18' and k.get('key') == INEXACT_KEY and k.get('status', 'open') == 'open' for k in load_known()):
+            for k in range(20 if tier != 'thorough' else 400):
+                n = rng.randint(3, 8)
+                m, c0 = rng.uniform(-3, 3), rng.uniform(0, 5)
+                xs = sorted(set(rng.uniform(0, 10) for _ in range(n)))
+                cases.append({'kind': 'chain', 'upper': bool(k % 2), 'family': 'nearline', 'points': [[x, m * x + c0] for x in xs]})
         # malformed stream (outside the domain; can never produce a violation): too few points, duplicate rows, non-increasing x
         for k in range(12 if tier != 'thorough' else 200):
             r = k % 4
@@ -205,6 +214,15 @@ class C18:
                 out.append(d)
         return out
 
+    def finding_key(self, c):
+        # a failing case on which the double-precision orientation has the wrong sign for some triple
+        try:
+            if all(math.isfinite(v) for p in c['points'] for v in p) and sign_inexact(c['points']):
+                return INEXACT_KEY
+        except Exception:
+            pass
+        return None
+
     def sample(self, c):
         return {k: c[k] for k in ['kind', 'upper', 'family', 'points', 'out', 'sp'] if k in c}
 
@@ -212,6 +230,27 @@ class C18:
         if c['kind'] == 'chain':
             return 'kneeliverse.convex_hull.graham_scan_%s(np.array(%s))' % ('upper' if c['upper'] else 'lower', c['points'])
         return 'kneeliverse.convex_hull.graham_scan(np.array(%s))' % (c['points'],)
+
+
+INEXACT_KEY = 'C18:inexact-orientation'
+
+
+def sign_inexact(pts):
+    """does the double-precision _ccw have a sign different from the exact cross product on some index triple?"""
+    from fractions import Fraction as F
+    n = len(pts)
+    if n > 40:
+        return False
+    P = [(F(p[0]), F(p[1])) for p in pts]
+    sg = lambda v: (v > 0) - (v < 0)
+    for i, j, k in itertools.permutations(range(n), 3):
+        a, b, c = pts[i], pts[j], pts[k]
+        f = (b[0] - a[0]) * (c[1] - a[1]) - (c[0] - a[0]) * (b[1] - a[1])
+        A, B, C = P[i], P[j], P[k]
+        e = (B[0] - A[0]) * (C[1] - A[1]) - (C[0] - A[0]) * (B[1] - A[1])
+        if sg(f) != sg(e):
+            return True
+    return False
 
 
 def has_collinear(pts):
